@@ -78,4 +78,172 @@ macro "mp_finish" : tactic => `(tactic|
   ((repeat' (split_ifs <;> (try mp_path) <;> (try simp_all (decide := true)))) <;>
    (try simp only [orElse_none, Int.mul_one, Int.one_mul, true_and, and_true]) <;> (try (repeat' constructor)) <;> (try omega)))
 
+/-! ### second round: bit arithmetic, floor division, text (one lemma per new construct) -/
+
+theorem pyAnd_nat (a b : Nat) : pyAnd (a : Int) (b : Int) = .ok ((a &&& b : Nat) : Int) := by
+  simp [pyAnd]
+
+theorem pyOr_nat (a b : Nat) : pyOr (a : Int) (b : Int) = .ok ((a ||| b : Nat) : Int) := by
+  simp [pyOr]
+
+theorem pyAnd_neg (a b : Int) (h : a < 0 ∨ b < 0) : pyAnd a b = .error .unsupported := by
+  have : ¬ (0 ≤ a ∧ 0 ≤ b) := by omega
+  simp [pyAnd, this]
+
+theorem pyShr_nat (a b : Nat) : pyShr (a : Int) (b : Int) = .ok ((a / 2 ^ b : Nat) : Int) := by
+  simp [pyShr, Int.shiftRight_eq_div_pow]
+
+theorem pyShr_int (a : Int) (b : Nat) : pyShr a (b : Int) = .ok (a / ((2 ^ b : Nat) : Int)) := by
+  simp [pyShr, Int.shiftRight_eq_div_pow]
+
+theorem pyShl_nat (a : Int) (b : Nat) : pyShl a (b : Int) = .ok (a * 2 ^ b) := by
+  simp [pyShl]
+
+theorem pyShift_neg (a b : Int) (h : b < 0) : pyShr a b = .error .valueError ∧ pyShl a b = .error .valueError := by
+  have : ¬ (0 ≤ b) := by omega
+  simp [pyShr, pyShl, this]
+
+/-- for a positive divisor Python's `%` is Lean's `%` on `Int` -/
+theorem pyMod_pos (a b : Int) (h : 0 < b) : pyMod a b = .ok (a % b) := by
+  have hb : b ≠ 0 := by omega
+  have h0 : 0 ≤ b := by omega
+  simp [pyMod, hb, Int.fmod_eq_emod, h0]
+
+theorem pyFloorDiv_pos (a b : Int) (h : 0 < b) : pyFloorDiv a b = .ok (a / b) := by
+  have hb : b ≠ 0 := by omega
+  have h0 : 0 ≤ b := by omega
+  simp [pyFloorDiv, hb, Int.fdiv_eq_ediv, h0]
+
+theorem pyMod_zero (a : Int) : pyMod a 0 = .error .zeroDivisionError := rfl
+theorem pyFloorDiv_zero (a : Int) : pyFloorDiv a 0 = .error .zeroDivisionError := rfl
+
+theorem land_mask24 (h : Nat) : h &&& 16777215 = h % 16777216 := Nat.and_two_pow_sub_one_eq_mod h 24
+theorem land_mask8 (h : Nat) : h &&& 255 = h % 256 := Nat.and_two_pow_sub_one_eq_mod h 8
+theorem land_mask24' (h : Nat) : 16777215 &&& h = h % 16777216 := by rw [Nat.and_comm]; exact land_mask24 h
+theorem land_mask8' (h : Nat) : 255 &&& h = h % 256 := by rw [Nat.and_comm]; exact land_mask8 h
+
+theorem pyInt_int (i : Int) : pyInt (.int i) = .ok i := rfl
+theorem pyInt_bool (b : Bool) : pyInt (.bool b) = .ok (if b then 1 else 0) := rfl
+theorem pyInt_none : pyInt .none = .error .typeError := rfl
+theorem asInt_bool (b : Bool) : asInt (.bool b) = .ok (if b then 1 else 0) := rfl
+theorem asInt_str (cs : List Nat) : asInt (.str cs) = .error .typeError := rfl
+theorem truthy_str (cs : List Nat) : truthy (.str cs) = !cs.isEmpty := rfl
+theorem truthy_ilist (l : List Int) : truthy (.ilist l) = !l.isEmpty := rfl
+theorem truthy_bit (b : Bool) : truthy (.int (if b then 1 else 0)) = b := by cases b <;> rfl
+
+theorem strLookup_nil (x : List Nat) : strLookup [] x = .error .keyError := rfl
+theorem strLookup_cons (k v x : List Nat) (t : List (List Nat × List Nat)) :
+    strLookup ((k, v) :: t) x = if k = x then .ok (.str v) else strLookup t x := rfl
+
+theorem prodInts_nil : prodInts [] = 1 := rfl
+theorem prodInts_cons (x : Int) (xs : List Int) : prodInts (x :: xs) = x * prodInts xs := rfl
+
+theorem fmtBin_nat (w n : Nat) :
+    fmtBin w (n : Int) = .ok (List.replicate (w - (binStr n).length) 48 ++ binStr n) := by
+  simp [fmtBin]
+
+theorem fmtBin_neg (w : Nat) (i : Int) (h : i < 0) : fmtBin w i = .error .unsupported := by
+  have : ¬ (0 ≤ i) := by omega
+  simp [fmtBin, this]
+
+/-! ### text of the models (`List Char`) as MiniPy strings -/
+
+/-- text (a `List Char` of the models) as MiniPy code points -/
+def codesOf (l : List Char) : List Nat := l.map Char.toNat
+
+theorem Char.toNat_inj' {a b : Char} (h : a.toNat = b.toNat) : a = b := by
+  apply Char.ext
+  exact UInt32.toNat_inj.mp h
+
+theorem codesOf_inj {a b : List Char} : codesOf a = codesOf b ↔ a = b := by
+  constructor
+  · intro h
+    induction a generalizing b with
+    | nil => cases b <;> simp_all [codesOf]
+    | cons x xs ih =>
+      cases b with
+      | nil => simp [codesOf] at h
+      | cons y ys =>
+        simp only [codesOf, List.map_cons, List.cons.injEq] at h
+        rw [Char.toNat_inj' h.1, ih (b := ys) h.2]
+  · intro h; rw [h]
+
+theorem isPrefixOf_codesOf (a b : List Char) : (codesOf a).isPrefixOf (codesOf b) = a.isPrefixOf b := by
+  induction a generalizing b with
+  | nil => simp [codesOf]
+  | cons x xs ih =>
+    cases b with
+    | nil => simp [codesOf]
+    | cons y ys =>
+      simp only [codesOf, List.map_cons, List.isPrefixOf] 
+      have := ih ys
+      simp only [codesOf] at this
+      rw [this]
+      by_cases hxy : x = y
+      · subst hxy; rw [beq_self_eq_true, beq_self_eq_true]
+      · have hn : x.toNat ≠ y.toNat := fun h => hxy (Char.toNat_inj' h)
+        have e1 : (x.toNat == y.toNat) = false := beq_eq_false_iff_ne.mpr hn
+        have e2 : (x == y) = false := beq_eq_false_iff_ne.mpr hxy
+        rw [e1, e2]
+
+/-- `a and b` on booleans -/
+theorem ite_truthy_bool_and (d e : Bool) :
+    (if truthy (Val.bool d) = true then (Except.ok (Val.bool e) : Except Err Val) else Except.ok (Val.bool d))
+      = .ok (.bool (d && e)) := by cases d <;> rfl
+
+/-! ### remaining second-round constructs: text tests, slices, `frombuffer`, literals -/
+
+theorem joinEmpty_nil : joinEmpty [] = [] := rfl
+theorem joinEmpty_endsSep (a : List Nat) : joinEmpty (a ++ [47]) = a ++ [47] := by
+  simp [joinEmpty]
+theorem joinEmpty_noSep (a : List Nat) (c : Nat) (h : c ≠ 47) : joinEmpty (a ++ [c]) = a ++ [c] ++ [47] := by
+  simp [joinEmpty, h]
+theorem beU32_len (l : List Int) (h : l.length ≠ 4) : beU32 l = .error .unsupported := by
+  match l, h with
+  | [], _ => rfl
+  | [_], _ => rfl
+  | [_, _], _ => rfl
+  | [_, _, _], _ => rfl
+  | _ :: _ :: _ :: _ :: _ :: _, _ => rfl
+  | [_, _, _, _], h => simp at h
+theorem beU32_nat (a b c d : Nat) (ha : a < 256) (hb : b < 256) (hc : c < 256) (hd : d < 256) :
+    beU32 [(a : Int), b, c, d] = .ok ((((a * 256 + b) * 256 + c) * 256 + d : Nat) : Int) := by
+  have h : (0 ≤ (a : Int) ∧ (a : Int) < 256 ∧ 0 ≤ (b : Int) ∧ (b : Int) < 256 ∧ 0 ≤ (c : Int) ∧ (c : Int) < 256 ∧
+      0 ≤ (d : Int) ∧ (d : Int) < 256) := by omega
+  simp only [beU32]
+  rw [if_pos h]
+  congr 1
+theorem eval_boolc (env : Env) (b : Bool) : eval env (.boolc b) = .ok (.bool b) := rfl
+theorem eval_strc (env : Env) (cs : List Nat) : eval env (.strc cs) = .ok (.str cs) := rfl
+theorem eval_inInts (env : Env) (e : Expr) (l : List Int) (i : Int) (h : eval env e = .ok (.int i)) :
+    eval env (.inInts e l) = .ok (.bool (l.contains i)) := by
+  simp only [eval, h, bind_ok', asInt_int]
+theorem eval_startswith (env : Env) (a b : Expr) (x y : List Nat) (ha : eval env a = .ok (.str x))
+    (hb : eval env b = .ok (.str y)) : eval env (.startswith a b) = .ok (.bool (y.isPrefixOf x)) := by
+  simp only [eval, ha, hb, bind_ok']
+theorem eval_takeN (env : Env) (e : Expr) (cs : List Nat) (n : Nat) (h : eval env e = .ok (.str cs)) :
+    eval env (.takeN e n) = .ok (.str (cs.take n)) := by
+  simp only [eval, h, bind_ok']
+theorem eval_dropN (env : Env) (e : Expr) (cs : List Nat) (n : Nat) (h : eval env e = .ok (.str cs)) :
+    eval env (.dropN e n) = .ok (.str (cs.drop n)) := by
+  simp only [eval, h, bind_ok']
+theorem eval_eqStr (env : Env) (a b : Expr) (x y : List Nat) (ha : eval env a = .ok (.str x))
+    (hb : eval env b = .ok (.str y)) : eval env (.eqStr a b) = .ok (.bool (decide (x = y))) := by
+  simp only [eval, ha, hb, bind_ok']
+theorem eval_neg (env : Env) (e : Expr) (i : Int) (h : eval env e = .ok (.int i)) :
+    eval env (.neg e) = .ok (.int (-i)) := by
+  simp only [eval, h, bind_ok', asInt_int]
+theorem eval_rev_str (env : Env) (e : Expr) (cs : List Nat) (h : eval env e = .ok (.str cs)) :
+    eval env (.rev e) = .ok (.str cs.reverse) := by
+  simp only [eval, h, bind_ok']
+
+/-- symbolic execution for blocks that use the second-round constructs -/
+macro "mp_sym" : tactic => `(tactic|
+  (simp (decide := true) only [runItem, exec, eval, bind_ok', bind_error', lookup_cons_eq, lookup_cons_ne,
+    lookup_setVar_eq, lookup_setVar_ne, truthy_none, truthy_bool, truthy_slice, truthy_int, truthy_str, truthy_ilist,
+    truthy_bit, asInt_int, asInt_none, asInt_bool, asInt_str, pyInt_int, pyInt_bool, pyAnd_nat, pyOr_nat, pyShr_nat,
+    pyShl_nat, strLookup_nil, strLookup_cons, prodInts_nil, prodInts_cons, *,
+    if_true, if_false, bne_iff_ne, ne_eq, decide_true, decide_false, not_false_eq_true, not_true_eq_false,
+    Bool.false_eq_true, Bool.not_true, Bool.not_false]))
+
 end Pydap
